@@ -201,6 +201,30 @@ pub fn run(tier: Tier) -> i32 {
         per.push(j);
         samples.extend(st.samples.into_iter().take(1));
     }
+    // ---- clusters of real nodes reacting to each other (the C02-A systems), each node monitored;
+    // every state is also completed fairly in two orders with the monitors running
+    let cluster_depth = tier.pick(3, 6);
+    for inner in crate::c02::liveness_systems() {
+        let mut live = crate::cluster::LiveSys::new(inner);
+        live.own_votes = true;
+        let name = format!("cluster/{}", live.inner.name);
+        let d = if live.inner.name.contains("equivocates") && !live.inner.name.contains("small") && tier == Tier::Quick { 2 } else { cluster_depth };
+        let limits = BfsLimits::new(d, tier.pick(600_000, 20_000_000), tier.pick(30, 120));
+        let st = bfs(&live, &name, &limits, &report);
+        println!(
+            "  {}: states={} transitions={} depth_completed={} fair completions={} vote-count shapes={} capped={:?}",
+            name, st.states, st.transitions, st.depth_completed, live.completions.load(std::sync::atomic::Ordering::Relaxed), live.shapes.lock().unwrap().len(), st.capped
+        );
+        exhaustive_to_depth &= st.capped.is_none();
+        st.merge_into(&mut total);
+        let mut j = st.to_json();
+        j["system"] = json!(name);
+        j["depth_bound"] = json!(d);
+        j["real_nodes_monitored"] = json!(live.inner.nodes);
+        j["fair_completions_monitored"] = json!(live.completions.load(std::sync::atomic::Ordering::Relaxed));
+        per.push(j);
+        samples.extend(st.samples.into_iter().take(1));
+    }
     let cov = json!({
         "states": total.states,
         "transitions": total.transitions,
@@ -211,7 +235,7 @@ pub fn run(tier: Tier) -> i32 {
         "exhaustive_to_depth_bound": exhaustive_to_depth,
         "depth_bound": depth,
         "capped": total.capped,
-        "bound": "all event sequences up to the depth bound over each alphabet (foreign votes/certificates, block arrivals, InvalidBlock, FirstShred, timeouts in timer order, loop-back of own broadcasts, Votor queue lag)",
+        "bound": "all event sequences up to the depth bound over each alphabet (foreign votes/certificates, block arrivals, InvalidBlock, FirstShred, timeouts in timer order, loop-back of own broadcasts, Votor queue lag); plus the six cluster systems of C02-A (three real nodes reacting to each other, a noisy Byzantine validator, non-initial start states) with the own-vote monitor on every real node, in every prefix state and during two fair completions of each",
         "families": per,
         "samples": samples,
     });
